@@ -1,6 +1,6 @@
 ---------------------------- MODULE MCResonaate ----------------------------
 (* Concrete constants for the exhaustive / simulation configurations of      *)
-(* Resonaate.tla (cfg files cannot express functions).                        *)
+(* Resonaate.tla (cfg files cannot express functions, records or tuples).     *)
 EXTENDS Resonaate
 
 T1 == {"t1"}
@@ -9,15 +9,16 @@ T3 == {"t1", "t2", "t3"}
 S1 == {"s1"}
 S2 == {"s1", "s2"}
 S3 == {"s1", "s2", "s3"}
+E0 == {}
 E1 == {"e1"}
 E2 == {"e1", "e2"}
 
-\* single engine owning everything
-AllT == [e \in Engines |-> Targets]
-AllS == [e \in Engines |-> Sensors]
+\* single engine owning every initial agent
+AllT == [e \in Engines |-> InitTargets]
+AllS == [e \in Engines |-> InitSensors]
 \* two engines: e1 owns t1/s1, e2 the rest
-SplitT == [e \in Engines |-> IF e = "e1" THEN {"t1"} ELSE Targets \ {"t1"}]
-SplitS == [e \in Engines |-> IF e = "e1" THEN {"s1"} ELSE Sensors \ {"s1"}]
+SplitT == [e \in Engines |-> IF e = "e1" THEN {"t1"} ELSE InitTargets \ {"t1"}]
+SplitS == [e \in Engines |-> IF e = "e1" THEN {"s1"} ELSE InitSensors \ {"s1"}]
 
 PolMunkres    == [e \in Engines |-> "munkres"]
 PolGreedy     == [e \in Engines |-> "greedy"]
@@ -25,5 +26,24 @@ PolRandom     == [e \in Engines |-> "random"]
 PolAllVisible == [e \in Engines |-> "allvisible"]
 PolMixed      == [e \in Engines |-> IF e = "e1" THEN "greedy" ELSE "munkres"]
 
-\* the state space is a tree in db (rows accumulate); bound the depth by NSteps only
+EvRec(id, kind, t0, t1, who, en, tgt, planned) ==
+  [id |-> id, kind |-> kind, t0 |-> t0, t1 |-> t1, who |-> who, eng |-> en, tgt |-> tgt, planned |-> planned]
+NoEvents == {}
+
+\* ---- event families for the C01 configurations (Dt = 3 ticks, NSteps = 3) ----
+\* one impulse on target t1 at every tick of the span (on and off step boundaries)
+ImpulseAt(t) == {EvRec("imp", "impulse", t, t, "t1", "e1", "t1", TRUE)}
+\* environment choice of the event time is made by running one config per tick: see cfg generator
+Imp1 == ImpulseAt(1)  Imp2 == ImpulseAt(2)  Imp3 == ImpulseAt(3)  Imp4 == ImpulseAt(4)
+Imp5 == ImpulseAt(5)  Imp6 == ImpulseAt(6)  Imp7 == ImpulseAt(7)  Imp8 == ImpulseAt(8)  Imp9 == ImpulseAt(9)
+\* two impulses in the same step, one exactly on the boundary, second unplanned
+ImpPair == {EvRec("impA", "impulse", 3, 3, "t1", "e1", "t1", TRUE), EvRec("impB", "impulse", 2, 2, "t1", "e1", "t1", FALSE)}
+\* agent set changes: t2 added on a boundary, s2 removed off-grid, t1 removed late
+AddRemove == {EvRec("add", "addTarget", 3, 3, "t2", "e1", "t2", FALSE),
+              EvRec("rmS", "removeSensor", 4, 4, "s2", "e1", "s2", FALSE),
+              EvRec("rmT", "removeTarget", 7, 7, "t1", "e1", "t1", FALSE)}
+\* duration events: a priority for engine e2 and a time bias for sensor s1
+Durations == {EvRec("prio", "priority", 2, 6, "e2", "e2", "t2", FALSE),
+              EvRec("bias", "bias", 3, 6, "s1", "e1", "s1", FALSE),
+              EvRec("burn", "burn", 2, 7, "t1", "e1", "t1", TRUE)}
 =============================================================================
